@@ -60,6 +60,19 @@ def case_lines(ctx, cfg):
                 if e3 is not None or not bool(deg) or len(comp) != 2 or not unordered_pair_eq((comp[0].array, comp[1].array), (np.array(g), np.array(h))):
                     ctx.fail(f"from_lines:large-coefficients:{type(e3).__name__ if e3 is not None else ('is_degenerate' if not bool(deg) else 'components')}", "from_lines / is_degenerate / components", inputs, [g, h], e3 if e3 is not None else [bool(deg)] + [x.array for x in comp])
                     return
+        # two clearly different lines that are close to each other (through a common point with slopes 2^-13 apart, and
+        # parallel at distance 2^-13): a pair, not a double line; each component is one of the two lines
+        if g == BIG_LINES[0]:
+            close_pairs = [((0.0, 1.0, 0.0), (-(2.0**-13), 1.0, -(2.0**-13))), ((0.0, 1.0, 0.0), (0.0, 1.0, -(2.0**-13))), ((1.0, 2.0, 3.0), (1.0 + 2.0**-12, 2.0, 3.0)), ((1.0, -1.0, 0.0), (1.0, -1.0, 2.0**-12))]
+            for a, b in close_pairs:
+                ctx.state(("close-pair", a, b))
+                c, e = ctx.call(G.Conic.from_lines, G.Line(np.array(a)), G.Line(np.array(b)))
+                comp, e3 = ctx.call(lambda: c.components) if e is None else (None, e)
+                ctx.trace(2)
+                ok = e3 is None and len(comp) == 2 and unordered_pair_eq((comp[0].array, comp[1].array), (np.array(a), np.array(b)), 1e-6) and not proj_eq(comp[0].array, comp[1].array, 1e-6)
+                if not ok:
+                    ctx.fail(f"from_lines:close-lines:{type(e3).__name__ if e3 is not None else 'components'}", "components", {"g": a, "h": b}, [a, b], e3 if e3 is not None else [x.array for x in comp])
+                    return
         return
     M_PROJ = np.array([[2.0, 1, 0], [0, 1, 1], [1, 1, 1]])
     T_PROJ = G.Transformation(M_PROJ)
